@@ -251,32 +251,81 @@ theorem hit_ok (minT maxT B : Int) (one : Bool) (h : 1 ≤ minT ∧ minT ≤ max
   unfold hitMin hitMax
   cases one <;> simp <;> (repeat' split) <;> omega
 
-/-! Names of the round-0 prototype, kept for reference (clock branch with the bonus as a number). -/
+/-! ## The round-0 prototype of the clock branch
+
+`alloc` / `alloc_ok` / `singleMoveClamp` / `singleMove_ok` are kept with their original definitions and signatures (Euclidean `/`,
+bonus as a number, scale as a function): `Bridge/Time.lean` (translator tie, regenerated from enginecontrol.cpp) proves that the
+integer slices of the C++ function compose to exactly `alloc`.  `alloc_eq_clock` connects `alloc` with the model above on the
+property's domain (where truncating and Euclidean division agree). -/
 
 structure Limits where
   soft : Int
   hard : Int
 
+/-- clock branch.  `bonus` = the floating-point ponder bonus (arbitrary), `scale` = `(int)(min * clamp(moves*0.5, 2.0, maxTimeUsage*0.01))`
+    abstracted to a function with the single property used below. -/
 def alloc (time inc movesToGo maxRem buffer bonus : Int) (scale : Int → Int) : Limits :=
-  let moves := movesEff movesToGo maxRem
-  let mg := margin buffer time
-  let min0 := timeLimit0 time inc moves mg + bonus
-  { soft := clamp min0 1 (time - mg), hard := clamp (scale min0) 1 (time - mg) }
+  let moves0 := if movesToGo = 0 then 999 else movesToGo
+  let moves := min moves0 maxRem
+  let margin := min buffer (time * 9 / 10)
+  let timeLimit := (time + inc * (moves - 1) - margin) / moves
+  let min0 := timeLimit + bonus
+  let max0 := scale min0
+  { soft := clamp min0 1 (time - margin), hard := clamp max0 1 (time - margin) }
 
 theorem alloc_ok (time inc movesToGo maxRem buffer bonus : Int) (scale : Int → Int)
-    (ht : 1 ≤ time) (hscale : ∀ m, 1 ≤ m → m ≤ scale m) :
+    (ht : 1 ≤ time) (_hb : 1 ≤ buffer) (hscale : ∀ m, 1 ≤ m → m ≤ scale m) :
     let L := alloc time inc movesToGo maxRem buffer bonus scale
-    1 ≤ L.soft ∧ L.soft ≤ L.hard ∧ L.hard ≤ time - min buffer (time * 9 / 10) := by
+    let budget := time - min buffer (time * 9 / 10)
+    1 ≤ L.soft ∧ L.soft ≤ L.hard ∧ L.hard ≤ budget := by
   simp only [alloc]
-  rw [← margin_eq buffer time ht]
-  exact clamp_pair_ok _ _ _ (budget_pos buffer time ht) (hscale _)
+  have hm : min buffer (time * 9 / 10) ≤ time * 9 / 10 := Int.min_le_right _ _
+  exact clamp_pair_ok _ _ _ (by omega) (hscale _)
 
-def singleMoveClamp (L : Limits) : Limits := { soft := singleMin L.soft L.hard, hard := singleMax L.hard }
+/-- startThread: one legal move and not pondering -/
+def singleMoveClamp (L : Limits) : Limits :=
+  if L.hard > 0 then { soft := clamp (L.soft / 100) 1 100, hard := clamp (L.hard / 100) 1 100 } else L
 
 theorem singleMove_ok (L : Limits) (B : Int) (h : 1 ≤ L.soft ∧ L.soft ≤ L.hard ∧ L.hard ≤ B) :
     let L' := singleMoveClamp L
     1 ≤ L'.soft ∧ L'.soft ≤ L'.hard ∧ L'.hard ≤ B := by
-  have := single_ok L.soft L.hard B h
-  exact ⟨this.1, this.2.1, this.2.2.1⟩
+  simp only [singleMoveClamp, clamp]
+  have : L.hard > 0 := by omega
+  rw [if_pos this]
+  simp only
+  omega
+
+/-- The bonus `computeTimeLimit` adds when the Ponder option is on, as a number for `alloc`. -/
+def ponderBonus (fp : FP) (p : Params) (time inc oTime oInc mtg : Int) (ponderOpt : Bool) : Int :=
+  if ponderOpt then
+    fp.bonus (timeLimit0 oTime oInc (movesEff mtg p.maxRem) (margin p.buffer time))
+      (timeLimit0 time inc (movesEff mtg p.maxRem) (margin p.buffer time)) p.ponderRate
+  else 0
+
+/-- On the property's domain (`time, inc, movesToGo ≥ 0`, `timeMaxRemainingMoves ≥ 1`) the prototype `alloc` — the function the
+    translated C++ slices compose to — is the clock branch of the model. -/
+theorem alloc_eq_clock (fp : FP) (p : Params) (time inc oTime oInc mtg : Int) (ponderOpt : Bool)
+    (ht : 0 ≤ time) (hi : 0 ≤ inc) (hm : 0 ≤ mtg) (hr : 1 ≤ p.maxRem) :
+    let L := alloc time inc mtg p.maxRem p.buffer (ponderBonus fp p time inc oTime oInc mtg ponderOpt)
+               (fun m => fp.scale m (movesEff mtg p.maxRem) p.maxUsage)
+    L.soft = clockSoft fp p time inc oTime oInc mtg ponderOpt ∧ L.hard = clockHard fp p time inc oTime oInc mtg ponderOpt := by
+  have hmg : margin p.buffer time = min p.buffer (time * 9 / 10) := by
+    unfold margin; rw [Int.tdiv_eq_ediv_of_nonneg (by omega)]
+  have hmv : movesEff mtg p.maxRem = min (if mtg = 0 then 999 else mtg) p.maxRem := rfl
+  have hmv1 : 1 ≤ movesEff mtg p.maxRem := by rw [hmv]; split <;> omega
+  have hprod : 0 ≤ inc * (movesEff mtg p.maxRem - 1) := Int.mul_nonneg hi (by omega)
+  have hle : min p.buffer (time * 9 / 10) ≤ time := by
+    have : min p.buffer (time * 9 / 10) ≤ time * 9 / 10 := Int.min_le_right _ _
+    omega
+  have htl : timeLimit0 time inc (movesEff mtg p.maxRem) (margin p.buffer time)
+      = (time + inc * (movesEff mtg p.maxRem - 1) - min p.buffer (time * 9 / 10)) / movesEff mtg p.maxRem := by
+    unfold timeLimit0; rw [hmg, Int.tdiv_eq_ediv_of_nonneg (by omega)]
+  have hmin : clockMin0 fp p time inc oTime oInc mtg ponderOpt
+      = (time + inc * (movesEff mtg p.maxRem - 1) - min p.buffer (time * 9 / 10)) / movesEff mtg p.maxRem
+        + ponderBonus fp p time inc oTime oInc mtg ponderOpt := by
+    unfold clockMin0 ponderBonus
+    cases ponderOpt <;> simp [htl]
+  simp only [alloc, clockSoft, clockHard, clockMax0, budget, hmin, hmg, ← hmv]
+  exact ⟨trivial, trivial⟩
 
 end Tm
